@@ -22,7 +22,7 @@ def corpus():
 
 
 def generate(rng, tier):
-    nsets = 5 if tier == "quick" else 60
+    nsets = 8 if tier == "quick" else 60
     cases = []
     for s in range(nsets):
         k = rng.randint(2, 12 if tier == "quick" else 40)
